@@ -144,6 +144,8 @@ theorem addModel_dnode (s : Scene) (w w' : W) (md : Model) (hs : SceneOK s) (hec
         split at h
         · cases h
         · rename_i r hr
+          have hgate := gate_ok s w md _ r hr
+          have hr := hgate.2
           have hl := lowEq_addModelMaterial s w md r hr
           have hk := addModelMaterial_keepW s w md r hr
           obtain ⟨m1, t1, g1, ⟨ms1, hms1⟩, ⟨mx1, hmx1⟩, mm1⟩ := addModelMaterial_shown s w md r hr hw.minv hw.matT hec
@@ -152,8 +154,8 @@ theorem addModel_dnode (s : Scene) (w w' : W) (md : Model) (hs : SceneOK s) (hec
             by rw [hk.2.2.1, hk.1]; exact hw.meshT.lt⟩
           have G1 : DGrow w r.1 := ⟨⟨[], by simp [hk.1]⟩, by rw [hk.2.2.1]; exact fun _ h => h, g1, ⟨ms1, hms1⟩, ⟨mx1, hmx1⟩⟩
           -- AddMesh
-          obtain ⟨d2, _, hmf⟩ := dinv_addMesh s r.1 md.name id m r.2 d1 hm hwf
-          obtain ⟨x2, xa, xb, xc⟩ := addMesh_dedup r.1 md.name id m r.2 x1 hpc
+          obtain ⟨d2, _, hmf⟩ := dinv_addMesh s r.1 md.name id m r.2 d1 hm hwf (skipped_false hpc).2 (dupFree_pairwise _ _ hgate.1)
+          obtain ⟨x2, xa, xb, xc⟩ := addMesh_dedup r.1 md.name id m r.2 x1 (skipped_false hpc).1
           obtain ⟨ta, tb⟩ := addMesh_tables r.1 md.name id m r.2
           have tp2 := texPart_addMesh r.1 md.name id m r.2
           have m2 : MInv s (addMesh r.1 md.name id m r.2).1 := minv_of_parts m1 tp2 ta
@@ -161,7 +163,7 @@ theorem addModel_dnode (s : Scene) (w w' : W) (md : Model) (hs : SceneOK s) (hec
           obtain ⟨_, ms2, hms2⟩ := nodePart_addMesh r.1 md.name id m r.2
           have G2 : DGrow r.1 (addMesh r.1 md.name id m r.2).1 :=
             ⟨⟨ms2, hms2⟩, xc, tgrow_of_texPart tp2, ⟨[], by simp [tb]⟩, ⟨[], by simp [ta]⟩⟩
-          have hne := addMesh_some r.1 md.name id m r.2 hpc
+          have hne := addMesh_some r.1 md.name id m r.2 (skipped_false hpc).1
           simp only at h
           split at h
           · rename_i hnone; exact absurd hnone hne
